@@ -12,7 +12,7 @@ package main
 //   M!<hex>                          raw bytes injected on the subscription's topic
 //   E!<name>!<cid>!<hdrs>!<value>    well-formed message whose envelope names <name>, injected on the topic
 //   U                                subscription.Unsubscribe()
-// output: acts=<r,…> calls=<dump@headers/…>   r = nosub | nocb | cb:ok | cb:err | unsub | sub:<topic hex> | err:<class>
+// output: n=<number of calls> acts=<r,…> calls=<dump@headers/…>   r = nosub | nocb | cb:ok | cb:err | unsub | sub:<topic hex> | err:<class>
 // (headers = the handler context's request headers without `_opid`, sorted pairs in hex)
 
 import (
@@ -299,7 +299,7 @@ func runPubSub(d *Defs, scopeKey, structKey, payload string) string {
 	if len(calls) > 0 {
 		c = strings.Join(calls, "/")
 	}
-	return fmt.Sprintf("acts=%s calls=%s", strings.Join(results, ","), c)
+	return fmt.Sprintf("n=%d acts=%s calls=%s", len(calls), strings.Join(results, ","), c)
 }
 
 func init() {
